@@ -9,8 +9,10 @@ import (
 	"os"
 	"os/exec"
 	"reflect"
+	"regexp"
 	"runtime/debug"
 	"strconv"
+	"strings"
 	"sync"
 	"syscall"
 	"time"
@@ -272,10 +274,18 @@ func repeat(s string, n int) string {
 // groupContainers: lists and maps over scalar items with sizes at and around the bounds (C02).
 func groupContainers(s *sink, g *hx.Gen) {
 	var t *hx.Ty
+	elem := g.Scalar()
+	if g.R.Intn(5) == 0 {
+		// loosely typed items / values: what they unserialize to is still exactly what the raw value denotes
+		elem = &hx.Ty{T: "any"}
+	}
 	if g.R.Intn(2) == 0 {
-		t = &hx.Ty{T: "list", Item: g.Scalar()}
+		t = &hx.Ty{T: "list", Item: elem}
 	} else {
-		t = &hx.Ty{T: "map", K: keyScalar(g), V: g.Scalar()}
+		t = &hx.Ty{T: "map", K: keyScalar(g), V: elem}
+	}
+	if g.R.Intn(3) == 0 {
+		chain(s, &hx.Ty{T: "any"}, g.AnyValue(0), "containers:any")
 	}
 	if g.R.Intn(4) > 0 {
 		t.Min = hx.IntP(int64(g.R.Intn(3)))
@@ -548,6 +558,10 @@ func corruptCases(s *sink, g *hx.Gen, op string, t *hx.Ty, cs []hx.Corruption) {
 			s.stats["corrupt:absorbed"]++
 			continue
 		}
+		if c.Names != "" && r.C != nil && *r.C && samePath(stripMarkers(r.Path), c.Path) && !strings.Contains(r.Msg, c.Names) {
+			s.finding(Finding{Prop: "C17", What: "rejection does not name the undeclared key (" + c.What + ")",
+				Cases: []int{id}, Schema: t, Input: c.V, Detail: []string{"expected the key " + c.Names + " in the message", "got " + r.JSON()}})
+		}
 		if r.C == nil || !*r.C || !samePath(stripMarkers(r.Path), c.Path) {
 			s.finding(Finding{Prop: "C17", What: "rejection does not name the offending element (" + c.What + ")",
 				Cases: []int{id}, Schema: t, Input: c.V, Detail: []string{"expected path " + pathText(c.Path), "got " + r.JSON()}})
@@ -720,6 +734,46 @@ func groupHistory(s *sink, g *hx.Gen) {
 		g.R.Shuffle(len(unitPool), func(a, b int) { unitPool[a], unitPool[b] = unitPool[b], unitPool[a] })
 		s.stats["history:rules"]++
 	}
+	// every fifth history: several REQUIRED properties, checked mostly through data-mode ValidateCompatibility,
+	// starting with documents that lack some of them (what a rejected first call notes about the schema must
+	// not be what later calls rely on)
+	preferC := false
+	if unitPool == nil && g.R.Intn(5) == 0 {
+		names := []string{"host", "port", "user", "path", "note"}
+		nn := 3 + g.R.Intn(2)
+		props := make([]hx.NamedProp, nn+1)
+		for i := 0; i < nn; i++ {
+			props[i] = hx.NamedProp{Name: names[i], P: &hx.Prop{Ty: &hx.Ty{T: "int"}, Required: true}}
+		}
+		props[nn] = hx.NamedProp{Name: names[4], P: &hx.Prop{Ty: &hx.Ty{T: "str"}}}
+		t = &hx.Ty{T: "obj", ID: "Req", Props: props}
+		if g.R.Intn(2) == 0 {
+			t = &hx.Ty{T: "scope", Root: "Req", Objs: []hx.NamedObj{{ID: "Req", Ty: t}}}
+		}
+		var rest []*hx.Val
+		for rep := 0; rep < 2; rep++ {
+			for mask := 0; mask < 1<<nn; mask++ {
+				m := hx.StrAny()
+				for i := 0; i < nn; i++ {
+					if mask&(1<<i) != 0 {
+						m.M = append(m.M, [2]*hx.Val{hx.Str(names[i]), hx.Int("int64", int64(i+1))})
+					}
+				}
+				if rep == 0 && mask == 0 {
+					unitPool = append(unitPool, m)
+				} else {
+					rest = append(rest, m)
+				}
+			}
+		}
+		g.R.Shuffle(len(rest), func(a, b int) { rest[a], rest[b] = rest[b], rest[a] })
+		if g.R.Intn(2) == 0 {
+			unitPool = nil // sometimes the first document is any of them
+		}
+		unitPool = append(unitPool, rest...)
+		preferC = true
+		s.stats["history:required"]++
+	}
 	used := t.Build()
 	describe := func() string {
 		r := hx.Guard(func() hx.Result {
@@ -744,7 +798,7 @@ func groupHistory(s *sink, g *hx.Gen) {
 	}
 	sequential := unitPool != nil && ((s.stats["history:oneof-badkey"] > 0 && (t.T == "oneOf" || (t.T == "obj" && t.ID == "Acc"))) ||
 		(t.T == "obj" && t.ID == "Job") || (t.T == "list" && t.Item != nil && t.Item.ID == "Job"))
-	if sequential {
+	if sequential || preferC {
 		n = len(unitPool)
 	}
 	var natives []any
@@ -755,7 +809,10 @@ func groupHistory(s *sink, g *hx.Gen) {
 		if sequential {
 			op = "U"
 		}
-		if sequential {
+		if preferC && g.R.Intn(3) > 0 {
+			op = "C"
+		}
+		if sequential || preferC {
 			v = unitPool[i]
 			arg = v.ToGo()
 		} else if (op == "V" || op == "S") && len(natives) > 0 && g.R.Intn(3) > 0 {
@@ -853,6 +910,7 @@ func groupRecursionWitness(s *sink, g *hx.Gen) {
 	s.stats["witness:done"]++
 	groupNaNKeys(s)
 	groupDeepValues(s)
+	groupListCycleWitness(s)
 	t := &hx.Ty{T: "scope", Root: "A", Objs: []hx.NamedObj{{ID: "A", Ty: &hx.Ty{T: "obj", ID: "A",
 		Props: []hx.NamedProp{{Name: "next", P: &hx.Prop{Ty: &hx.Ty{T: "ref", ID: "A"}}}}}}}}
 	for _, v := range []*hx.Val{hx.Int("int64", 5), hx.Str("x"), hx.Nil()} {
@@ -871,6 +929,47 @@ func groupRecursionWitness(s *sink, g *hx.Gen) {
 					Cases: []int{c.ID}, Schema: t, Input: v, Detail: []string{"single-property-self-reference-shorthand", res.Msg}})
 				s.finding(Finding{Prop: "C14", What: "self-referential object graph does not work on a finite input: single-property object referring to itself, non-map input (shorthand recursion)",
 					Cases: []int{c.ID}, Schema: t, Input: v, Detail: []string{"single-property-self-reference-shorthand", res.Msg}})
+			}
+		}
+	}
+}
+
+// groupListCycleWitness: recursive schemas whose reference cycle passes through single-property objects AND
+// lists (node{children: list[ref node]}, a{bs: list[ref b]} with b{as: list[ref a]}, grid{rows: list[list[ref
+// grid]]}): a scalar where a node or its list is expected is refused after finitely many steps - the list does
+// not accept a lone item, so the single-property shorthand cannot come round again. Each case in a child process.
+func groupListCycleWitness(s *sink) {
+	ref := func(id string) *hx.Ty { return &hx.Ty{T: "ref", ID: id} }
+	list := func(i *hx.Ty) *hx.Ty { return &hx.Ty{T: "list", Item: i} }
+	obj := func(id, prop string, t *hx.Ty) hx.NamedObj {
+		return hx.NamedObj{ID: id, Ty: &hx.Ty{T: "obj", ID: id, Props: []hx.NamedProp{{Name: prop, P: &hx.Prop{Ty: t}}}}}
+	}
+	schemas := []*hx.Ty{
+		{T: "scope", Root: "node", Objs: []hx.NamedObj{obj("node", "children", list(ref("node")))}},
+		{T: "scope", Root: "a", Objs: []hx.NamedObj{obj("a", "bs", list(ref("b"))), obj("b", "as", list(ref("a")))}},
+		{T: "scope", Root: "grid", Objs: []hx.NamedObj{obj("grid", "rows", list(list(ref("grid"))))}},
+	}
+	for si, t := range schemas {
+		prop := t.Objs[0].Ty.Props[0].Name
+		values := []*hx.Val{hx.Bool(true), hx.Int("int64", 5), hx.Str("leaf"), hx.List(hx.Str("leaf")),
+			hx.StrAny([2]*hx.Val{hx.Str(prop), hx.Str("leaf")}), hx.StrAny([2]*hx.Val{hx.Str(prop), hx.List(hx.Int("int64", 1))}),
+			hx.StrAny([2]*hx.Val{hx.Str(prop), hx.List()})}
+		for _, v := range values {
+			for _, op := range []string{"U", "C"} {
+				s.nextID++
+				c := hx.Case{ID: s.nextID, Op: op, Schema: t, V: v, Ext: hx.MkExt(t, v), Fuel: 400, Cmp: "class", Note: "list-cycle-witness"}
+				b, _ := json.Marshal(c)
+				s.cases.Write(b)
+				s.cases.WriteByte('\n')
+				res := runCaseIsolated(c)
+				rb, _ := json.Marshal(res)
+				s.results.Write(rb)
+				s.results.WriteByte('\n')
+				s.stats["witness:list-cycle"]++
+				if res.R == "fuel" {
+					s.finding(Finding{Prop: "C04", What: "operation " + op + " does not return: a recursive schema whose cycle passes through single-property objects and lists, given a value that is not a node",
+						Cases: []int{c.ID}, Schema: t, Input: v, Detail: []string{fmt.Sprintf("list-cycle schema %d", si), res.Msg}})
+				}
 			}
 		}
 	}
@@ -1463,6 +1562,11 @@ func groupDeepAny(s *sink) {
 // scribble edits a result in place: every map gets an extra entry, every slice has its elements
 // overwritten with its first one reversed in order; scalars cannot be edited.
 func scribble(x any) {
+	if re, ok := x.(*regexp.Regexp); ok && re != nil {
+		// a compiled pattern belongs to the caller as well: configure it
+		re.Longest()
+		return
+	}
 	v := reflect.ValueOf(x)
 	switch v.Kind() { //nolint:exhaustive
 	case reflect.Map:
@@ -1493,6 +1597,9 @@ func scribble(x any) {
 // deepCopyGo copies maps and slices (the harness keeps natives for later Validate / Serialize calls;
 // they must not see the scribbles).
 func deepCopyGo(x any) any {
+	if re, ok := x.(*regexp.Regexp); ok && re != nil {
+		return regexp.MustCompile(re.String())
+	}
 	v := reflect.ValueOf(x)
 	switch v.Kind() { //nolint:exhaustive
 	case reflect.Map:
